@@ -66,9 +66,14 @@ func verifHarness_C15_wiring() {
 	cfg.Name = "conn"
 	cfg.Local.ConnectionType = wrConnType("local-transport")
 	cfg.Remote.ConnectionType = wrConnType("remote-transport")
-	hasPolicy := verifChoose("policy", 2) == 1
-	if hasPolicy {
+	policyKind := verifChoose("policy", 3) // 0 none, 1 lists, 2 present but empty (unrestricted lists, namespace lifecycle still refused)
+	hasPolicy := policyKind != 0
+	switch policyKind {
+	case 1:
 		cfg.ACLPolicy = &config.ACLPolicy{AllowedMethods: config.AllowedMethods{AdminService: []string{"DescribeCluster"}}, AllowedNamespaces: []string{"ns-ok"}}
+	case 2:
+		cfg.ACLPolicy = &config.ACLPolicy{}
+		verifReach("empty-policy")
 	}
 	hasTranslation := verifChoose("translation", 2) == 1
 	if hasTranslation {
@@ -104,7 +109,16 @@ func verifHarness_C15_wiring() {
 		verifAssert(trU < aclU && trS < aclS, "acl-check-runs-after-translation")
 	}
 	// behaviour through the assembled chain: a method outside the list never reaches the handler
-	if hasPolicy && !hasTranslation {
+	if policyKind == 2 && !hasTranslation {
+		// an empty policy restricts no admin method, but namespace registration/deprecation stay refused
+		n, e := c15wRunUnary(in.unary, api.WorkflowServicePrefix+"RegisterNamespace")
+		verifAssert(n == 0 && verifStatusCode(e) == int(codes.PermissionDenied), "namespace-registration-refused-under-any-policy")
+		n, e = c15wRunUnary(in.unary, api.WorkflowServicePrefix+"DeprecateNamespace")
+		verifAssert(n == 0 && verifStatusCode(e) == int(codes.PermissionDenied), "namespace-deprecation-refused-under-any-policy")
+		n, e = c15wRunUnary(in.unary, api.AdminServicePrefix+"AddOrUpdateRemoteCluster")
+		verifAssert(n == 1 && e == nil, "empty-allow-list-is-unrestricted")
+	}
+	if policyKind == 1 && !hasTranslation {
 		n, e := c15wRunUnary(in.unary, api.AdminServicePrefix+"AddOrUpdateRemoteCluster")
 		verifAssert(n == 0 && verifStatusCode(e) == int(codes.PermissionDenied), "assembled-inbound-server-refuses-unlisted-admin-method")
 		n, e = c15wRunUnary(in.unary, api.AdminServicePrefix+"DescribeCluster")
